@@ -32,8 +32,8 @@ thm = ("/-- **The code the model was written against.** The statements of the mo
 pf = f"{ROOT}/lean/SamVerif/Props/{cxx}.lean"
 t = open(pf).read()
 ns = f"SamVerif.Props.{cxx}"
-t = re.sub(r"/-- \*\*The code the model was written against\.\*\*(?:(?!/-- ).)*?theorem " + thm_name + r" :.*?(?=\n/-- |\nend " + re.escape(ns) + ")", "", t, flags=re.S)
-k = t.rindex("end " + ns)
+t = re.sub(r"/-- \*\*The code the model was written against\.\*\*(?:(?!/-- ).)*?theorem " + thm_name + r" :.*?(?=\n/-- |\nend " + re.escape(ns) + r"\b(?!\w))", "", t, flags=re.S)
+k = [m.start() for m in re.finditer(r"^end " + re.escape(ns) + r"$", t, re.M)][-1]
 t = t[:k].rstrip("\n") + "\n\n" + thm + "\n" + t[k:]
 imp = f"import SamVerif.Gen.{gen}\n"
 if imp not in t:
